@@ -251,7 +251,11 @@ func (ex *Exec) check(st *State, fr *Frame, class, label string, goal Term, prop
 	if !ex.active(props) {
 		// obligations of other properties are discharged in those properties'
 		// runs; here they are part of the context (assumed, not reported)
-		if goal.B != 1 && class != "cover" {
+		// ... except the function's own postconditions and frame conditions:
+		// those are decided independently of each other in every run, and an
+		// unproved postcondition of another property must never make this
+		// property's postconditions vacuously true
+		if goal.B != 1 && class != "cover" && class != "post" && class != "frame" {
 			st.assume(goal)
 		}
 		return
